@@ -72,6 +72,9 @@ def check(ctx):
     cases += [{"kind": "pair", "lo": e, "hi": e + 1, "rep": r} for e in es for r in ("int32", "int64", "int") if float(e).is_integer()]
     cases += [{"kind": "pair", "lo": a, "hi": b} for a, b in zip(es[:-1], es[1:])]
     cases += [{"kind": "pair", "lo": e * (1 - 1e-6), "hi": e} for e in es] + [{"kind": "pair", "lo": e, "hi": e * (1 + 1e-6)} for e in es]
+    # histories: the helpers are pure functions, so what they return for a float64 energy must not depend on an earlier call with the
+    # numerically equal energy in another representation (energies e + 3 are used by no other case of this run)
+    cases += [{"kind": "history", "e": e + 3.0, "rep": r} for e in es if float(e).is_integer() and e + 3.0 < 2 ** 24 for r in ("float32", "int32", "int")]
     cases += [{"kind": "reject", "e": e} for e in (0, 0.0, -1, -1.0, -1e5)]
     cases += [{"kind": "reject", "e": e, "rep": r} for e in (0, -1, -100000) for r in ("float32", "int32", "int64", "array0d-int32")]
     ctx.run(cases, "run_case", batch=50, rule="every grid energy (value checks incl. 8 samplings), every consecutive / 1e-6-neighbour "
@@ -112,6 +115,29 @@ def run_case(case):
         cmp("accelerator/wavelength" + k, acc.wavelength, ref_wavelength(e), "Accelerator(%s).wavelength" % what)
         cmp("accelerator/sigma" + k, acc.sigma, ref_sigma(e), "Accelerator(%s).sigma" % what)
         return {"viol": viol, "obs": "%.9g" % lam, "tr": 8, "err": worst}
+    if case["kind"] == "history":
+        from ase import units as UN  # the constant set the library itself uses
+
+        e = float(case["e"])
+        first = as_rep(e, rep)
+        out = {}
+        for name in ("energy2wavelength", "energy2sigma", "energy2mass", "relativistic_mass_correction"):
+            f = getattr(EN, name)
+            f(first)  # the earlier call, in the other representation
+            out[name] = float(f(e))
+        # the same formulas in plain float64 with the LIBRARY's constants: exact agreement is expected (observed <= 2 ulp)
+        gam = 1 + UN._e * e / (UN._me * UN._c ** 2)
+        lam = UN._hplanck * UN._c / math.sqrt(e * (2 * UN._me * UN._c ** 2 / UN._e + e)) / UN._e * 1.0e10
+        want = {"energy2wavelength": lam, "relativistic_mass_correction": gam, "energy2mass": gam * UN._me,
+                "energy2sigma": 2 * math.pi * gam * UN._me * UN.kg * UN._e * UN.C * lam / (UN._hplanck * UN.s * UN.J) ** 2}
+        # energy2sigma's own unit bookkeeping may differ by a few ulp from this transcription
+        for name, got in out.items():
+            r = abs(got - want[name]) / abs(want[name])
+            worst = max(worst, r / 1e-12)
+            if not r <= 1e-12:
+                viol.append({"key": "history/%s-after-%s-call" % (name, rep), "msg": "%s(%r) called after %s(%s(%r)) returns %r, the float64 formula gives %r (rel %.3g): the result depends on the call history" % (
+                    name, e, name, rep, e, got, want[name], r)})
+        return {"viol": viol, "obs": "history", "tr": 8, "err": worst}
     if case["kind"] == "pair":
         lo, hi = as_rep(case["lo"], rep), as_rep(case["hi"], rep)
         a, b = EN.energy2wavelength(lo), EN.energy2wavelength(hi)
